@@ -94,7 +94,9 @@ def euler_case(draw):
          'cplx': draw(st.booleans()) if normalize != 1 else False,
          'tt_solver': draw(st.sampled_from(['als', 'als', 'mals'])) if len(dims) >= 2 else 'als',
          'micro_solver': draw(st.sampled_from(['solve', 'lu'])), 'repeats': draw(st.sampled_from([1, 1, 2])),
-         'x_rank': draw(st.integers(1, 3)), 'x_scale_exp': draw(st.sampled_from([0, 0, 0, -9, 7]))}
+         'x_rank': draw(st.integers(1, 3)), 'x_scale_exp': draw(st.sampled_from([0, 0, 0, -9, 7])),
+         # mixed dtypes among operator / state / guess of a complex problem; a max_rank equal to the largest representable rank
+         'real_part': draw(st.sampled_from([None, None, 'op', 'state', 'guess'])), 'tight_max_rank': draw(st.sampled_from([False, False, True]))}
     return c
 
 
@@ -109,15 +111,15 @@ def setup_euler(c):
         A = A / max(np.max(np.abs(np.diag(A))), 1e-12) * (0.9 / max(c['steps']))
         A = A * rng.uniform(0.3, 1.0)
     else:
-        A = general_operator(rng, dims, c['cplx'], terms=2 if c['local'] else None) * (0.5 / max(c['steps']))
+        A = general_operator(rng, dims, c['cplx'] and c.get('real_part') != 'op', terms=2 if c['local'] else None) * (0.5 / max(c['steps']))
     op = TT(dense.op_cores(A, dims))
     mr = dense.max_ranks(dims)
     xr = [1] + [min(c['x_rank'], mr[i]) for i in range(1, d)] + [1]
-    x0 = rnd_tt(rng, dims, xr, c['cplx'], nonneg=markov)
+    x0 = rnd_tt(rng, dims, xr, c['cplx'] and c.get('real_part') != 'state', nonneg=markov)
     if c.get('x_scale_exp', 0):
         # the schemes are linear in the state: an initial value of norm 1e-9 or 1e7 must work like one of norm 1
         x0.cores[0] = x0.cores[0] * 10.0 ** c['x_scale_exp']
-    guess = rnd_tt(rng, dims, mr, c['cplx'], nonneg=markov)
+    guess = rnd_tt(rng, dims, mr, c['cplx'] and c.get('real_part') != 'guess', nonneg=markov)
     return rng, A, op, x0, guess
 
 
@@ -128,6 +130,9 @@ def body_euler(c):
     snaps = [(t, build.snapshot(t)) for t in (op, x0, guess)]
     I = np.eye(N)
     kw = dict(normalize=p, progress=False)
+    if c.get('tight_max_rank'):
+        # "with representable ranks": a cap equal to the largest rank any tensor of this shape can have is no effective truncation
+        kw['max_rank'] = max(dense.max_ranks(dims))
     steps_arg = list(steps)
 
     def integrate():
@@ -173,6 +178,10 @@ def body_euler(c):
         lab.add('complex')
     if c.get('x_scale_exp', 0):
         lab.add('rescaled_state')
+    if c['cplx'] and c.get('real_part'):
+        lab.add('mixed_operand_dtypes')
+    if c.get('tight_max_rank'):
+        lab.add('max_rank_equals_largest_representable')
     return lab
 
 
@@ -187,7 +196,7 @@ def hod_case(draw):
     return {'dims': dims, 'order': draw(st.sampled_from([2, 3, 4, 6])), 'normalize': normalize, 'seed': draw(gen.SEED),
             'h': draw(st.sampled_from([0.05, 0.1, 0.2, 0.4])), 'steps': draw(st.integers(1, 4)), 'previous': draw(st.booleans()),
             'terms': draw(st.integers(1, 3)), 'cplx': draw(st.booleans()) if normalize != 1 else False, 'x_rank': draw(st.integers(1, 2)),
-            'x_scale_exp': draw(st.sampled_from([0, 0, 0, -9, 7]))}
+            'x_scale_exp': draw(st.sampled_from([0, 0, 0, -9, 7])), 'tight_max_rank': draw(st.sampled_from([False, False, True]))}
 
 
 def body_hod(c):
@@ -217,6 +226,8 @@ def body_hod(c):
     snaps = [(t, build.snapshot(t)) for t in (op, x0)]
     order = c['order'] + (c['order'] % 2)
     kw = dict(order=c['order'], normalize=p, progress=False)
+    if c.get('tight_max_rank'):
+        kw['max_rank'] = max(mr)         # the largest representable rank: no effective truncation
     if prev is not None:
         prev_dense = vec(prev)
         kw['previous_value'] = prev
@@ -261,6 +272,8 @@ def body_hod(c):
         lab.add('order1')
     if c.get('x_scale_exp', 0) and p != 1:
         lab.add('rescaled_state')
+    if c.get('tight_max_rank'):
+        lab.add('max_rank_equals_largest_representable')
     return lab
 
 
